@@ -67,8 +67,14 @@ def gen_call(rng):
             dd.insert(rng.randrange(len(dd) + 1), [rng.randint(-10, -1) if vi == 0 else rng.randint(0, 10), 0, 0])
         ki = rng.choice([0, 1, 1])
         hasvi = rng.choice([0, 1, 1]) if ki else rng.choice([0, 1])
+    if rng.random() < 0.12:
+        # a diagram with nothing but essential classes (empty once the infinite bars are dropped) and / or an empty diagram, among the others:
+        # no value is prescribed for them, but the call must neither raise nor disturb the other diagrams' entries
+        extra = [[[rng.randint(0, 5), 0, 0] for _ in range(rng.randint(1, 2))]] + ([[]] if rng.random() < 0.4 else [])
+        for x in extra:
+            dgms.insert(rng.randrange(len(dgms) + 1), x)
     if kind == "bad":
-        q = rng.randrange(len(dgms))
+        q = rng.choice([i_ for i_ in range(len(dgms)) if dgms[i_]])
         b = rng.randint(0, 10)
         dgms[q].insert(rng.randrange(len(dgms[q]) + 1), [b, b - rng.choice([0, 0, 1, 3]), 1])
     nz = int(rng.random() < 0.4)
